@@ -385,6 +385,40 @@ pub fn search(tier: &str, seed: u64, s: &mut Search) {
                 }
             }
         }
+        // a mask linked from a mask (a clip path from a clip path), both in bounding-box units: every member of the chain
+        // is resolved against the box of the ELEMENT, exactly as after rewriting each member in user space
+        if i % 5 == 4 {
+            let (x, y, w, h) = (rng.range(20, 60) as f64, rng.range(20, 50) as f64, rng.range(40, 100) as f64, rng.range(40, 80) as f64);
+            let mask = rng.chance(1, 2);
+            let (a, b) = if mask {
+                (
+                    format!(r##"<mask id="m2" maskContentUnits="objectBoundingBox" x="0.1" y="0.1" width="0.8" height="0.7"><rect x="0.2" y="0.1" width="0.7" height="0.8" fill="white"/></mask><mask id="m1" mask="url(#m2)"><rect x="-500" y="-500" width="2000" height="2000" fill="white"/></mask>"##),
+                    format!(
+                        r##"<mask id="m2" maskUnits="userSpaceOnUse" x="{}" y="{}" width="{}" height="{}"><rect x="{}" y="{}" width="{}" height="{}" fill="white"/></mask><mask id="m1" mask="url(#m2)"><rect x="-500" y="-500" width="2000" height="2000" fill="white"/></mask>"##,
+                        x + 0.1 * w, y + 0.1 * h, 0.8 * w, 0.7 * h, x + 0.2 * w, y + 0.1 * h, 0.7 * w, 0.8 * h
+                    ),
+                )
+            } else {
+                (
+                    r##"<clipPath id="m2" clipPathUnits="objectBoundingBox"><rect x="0.2" y="0.1" width="0.7" height="0.6"/></clipPath><clipPath id="m1" clip-path="url(#m2)"><rect x="-500" y="-500" width="2000" height="2000"/></clipPath>"##.to_string(),
+                    format!(
+                        r##"<clipPath id="m2"><rect x="{}" y="{}" width="{}" height="{}"/></clipPath><clipPath id="m1" clip-path="url(#m2)"><rect x="-500" y="-500" width="2000" height="2000"/></clipPath>"##,
+                        x + 0.2 * w, y + 0.1 * h, 0.7 * w, 0.6 * h
+                    ),
+                )
+            };
+            let attr = if mask { r##"mask="url(#m1)""## } else { r##"clip-path="url(#m1)""## };
+            let user = format!(r##"<rect x="{x}" y="{y}" width="{w}" height="{h}" fill="green" {attr}/>"##);
+            let ca = format!("{HDR}<defs>{a}</defs>{user}</svg>");
+            let cb = format!("{HDR}<defs>{b}</defs>{user}</svg>");
+            if let (Some((_, qa)), Some((_, qb))) = (render(&ca, &o), render(&cb, &o)) {
+                s.case("linked-definition-chain", &ca, qa.data().chunks(4).any(|p| p[3] != 0));
+                let (ok, why) = crate::rend::similar(&qa, &qb, 4);
+                if !ok {
+                    s.finding(&format!("oracle:C18:{}:linked-member-resolved-against-another-box", if mask { "mask" } else { "clip-path" }), &format!("a bounding-box definition linked from another one resolves differently from its user-space rewriting: {}", why), &ca);
+                }
+            }
+        }
         // a pattern with a viewBox: its content lives in viewBox coordinates whatever patternContentUnits says,
         // so the objectBoundingBox spelling must resolve exactly like the userSpaceOnUse spelling
         if i % 5 == 2 {
